@@ -229,7 +229,10 @@ def run(chk, replay=None):
                 "shutdown (recvLoop leaves only between messages, DoneChan closes after recvLoop and sendLoop, cleanup "
                 "closes the result channels), and Connection.Close/shutdown with its two error forwarders, against "
                 "every peer script of <= 3 steps over {correct reply, each permitted-but-wrong-kind reply, forbidden "
-                "message, malformed bytes, surplus reply, truncated segment, stall, rejected segment, close} and a user "
+                "message, malformed bytes, surplus reply, truncated segment, stall, rejected segment, close, tmo = silence "
+                "until the state timeout of the state waited in fires (TimeoutFires: stateLoop's timer, armed on entering "
+                "a timed state, reports the error, stops the protocol and is forgotten; the stateLoop that keeps the fired "
+                "timer - Design keeptimer - is rejected by TLC through StateLoopEnds)} and a user "
                 "who closes, drains ErrorChan and calls once more. It is instantiated per call from a table whose "
                 "structure is hand-written and whose deciding attributes (DoneChan case in the wait, channels closed "
                 "on done, select/plain/buffered handler sends, mutex, waitGroup.Wait before close(errorChan)) are "
@@ -251,7 +254,14 @@ def run(chk, replay=None):
                 "until the clean-up has run; BulkSend.tla - a >= 1 MiB reply or stream stuck in sendLoop's hand-off "
                 "behind a peer that stopped reading when the connection ends")
     chk.assumptions = [
-        "state timeouts (C14) are configured out of the way (10 min); a hang verdict needs: whole script written, "
+        "state timeouts (C14) are configured out of the way (10 min), except in the scripts that end in tmo: there the "
+        "timeout of the state the script's last stage waits in is set to 120..300 ms (by seed) through the public option "
+        "the table names for the stage (checked against client.go: entry.Timeout = c.config.<field>), tx-submission's "
+        "fixed 10 s ones are waited for (thorough tier), and the peer's silence lasts until the engine's trace hook "
+        "reports Timeout (or Stop) for the protocol under test - no bound on when a timeout fires is asserted other than "
+        "45 s, after which the case counts as not established (machinery failure: whether timeouts fire is C14's subject); "
+        "chain-sync node-to-client and the blocking tx-submission request have no state timeout, MustReply's is not an "
+        "option; a hang verdict needs: whole script written, "
         "connection ended, two dumps 1.5 s apart with the caller parked inside the library method and every library "
         "goroutine of the case parked and unchanged; an undecidable case is a machinery failure",
         "the structure half of the table (which request, which channel, which handler) is hand-written from client.go; "
